@@ -98,6 +98,9 @@ type Opts struct {
 	MaxDepth int // 0 = single part
 	BigBody  int // if >0, one leaf gets about this many bytes
 	NoCRLFInBody bool
+	// EmbedIDHeader puts a line that looks like the server's ID header into a body (as a
+	// forwarded message that once passed through gluon would carry).
+	EmbedIDHeader bool
 }
 
 // Build makes a message with a random MIME tree of at most MaxDepth levels.
@@ -162,6 +165,9 @@ func (b *builder) entityBody(p *Part, path []int, depth int, o Opts, top bool) {
 		n := b.r.Intn(6)
 		if o.BigBody > 0 && b.r.P(1, 2) {
 			n = o.BigBody / 40
+		}
+		if o.EmbedIDHeader {
+			b.buf.WriteString(IDHeader + ": 11111111-2222-3333-4444-555555555555\r\n")
 		}
 		for i := 0; i < n; i++ {
 			line := fmt.Sprintf("line %d %s %s", i, words[b.r.Intn(len(words))], words[b.r.Intn(len(words))])
